@@ -9,7 +9,7 @@ git -C /repo worktree add -q --detach "$S" HEAD || exit 2
 (cd /repo && git ls-files -m -o --exclude-standard | grep zz_verif_contracts.go | while read f; do cp "/repo/$f" "$S/$f"; done)
 if ! git -C "$S" apply "$PATCH"; then echo "PATCH DOES NOT APPLY"; git -C /repo worktree remove --force "$S"; exit 2; fi
 V=$(mktemp -d /tmp/mutv.XXXXXX)
-cp /verif/known_findings.txt "$V/" 2>/dev/null
+cp /verif/known_findings.txt "$V/" 2>/dev/null; cp -r /verif/models "$V/models" 2>/dev/null
 if [ -n "$FUNC" ]; then
   timeout 900 /verif/bin/govc check -repo "$S" -verif "$V" -prop "$PROP" -func "$FUNC" 2>&1 | grep -v "^  " | cut -c1-220
 else
